@@ -37,6 +37,75 @@ func runC02(c *Ctx) {
 	c02gate(c, m)
 	c02epoch(c, m)
 	c02frozen(c, m)
+	c02inflight(c, m)
+}
+
+// c02inflight: an idempotent producer never has more unanswered produce
+// requests per partition than the broker's duplicate window holds (5 batches
+// per producer and partition in Kafka; pidwindow.entries in kfake).  The
+// in-flight semaphore is created with capacity 1 (or, without idempotence,
+// the configured value) and raised once, by firstRespCheck, to a constant N:
+// a drain loop already parked on the old semaphore adds one, so 1 + N <= 5.
+func c02inflight(c *Ctx, m *Module) {
+	rule := "inflight-within-dedupe-window"
+	sem := m.Field("kgo", "sink", "inflightSem")
+	if sem == nil {
+		c.Undecided("anchor", "kgo.sink.inflightSem", 0, m, "field not found")
+		return
+	}
+	const window = 5
+	n := 0
+	for _, st := range StoreSites(m.FuncsIn("kgo"), sem) {
+		if st.Kind != "atomic:Store" {
+			c.Fail(rule, st.Fn.Key+": inflightSem "+st.Kind, st.Node.Pos(), m, "the in-flight semaphore is modified other than by Store")
+			continue
+		}
+		n++
+		mk, ok := unparen(st.RHS).(*ast.CallExpr)
+		if !ok || exprStr(mk.Fun) != "make" || len(mk.Args) != 2 {
+			c.Fail(rule, st.Fn.Key+": inflightSem.Store("+exprStr(st.RHS)+")", st.Node.Pos(), m, "the in-flight semaphore is not a freshly made channel of visible capacity")
+			continue
+		}
+		info := st.Fn.Info()
+		cons := st.Fn.Key + ": inflightSem.Store(" + exprStr(st.RHS) + ")"
+		switch st.Fn.Key {
+		case "kgo.sink.firstRespCheck":
+			v, isC := constInt(info, mk.Args[1])
+			g := st.Fn.GraphFor(st.Node)
+			l, _ := g.LocOf(enclosingStmt(st.Fn.Decl.Body, st.Node))
+			idem := factMatches(g.FactsAt(l), func(ft Fact) bool { return ft.Val && exprStr(ft.Cond) == "idempotent" })
+			c.Check(isC && 1+v <= window && idem, rule, cons, st.Node.Pos(), m, fmt.Sprintf("1 (a loop parked on the old semaphore) + %d <= %d", v, window), fmt.Sprintf("the raised in-flight capacity is %s: with the request a parked drain loop adds, more than %d batches of one partition can be unanswered, the broker forgets the oldest one, its retry is rejected as out of order and the epoch bump re-sends (duplicates) the batches already written", exprStr(mk.Args[1]), window))
+		case "kgo.Client.newSink":
+			// 1 unless idempotence is disabled
+			id, isID := unparen(mk.Args[1]).(*ast.Ident)
+			ok := false
+			if isID {
+				rhss := assignsTo(st.Fn, info.Uses[id])
+				ok = len(rhss) == 2
+				for _, r := range rhss {
+					if v, isC := constInt(info, r); isC {
+						ok = ok && v == 1
+						continue
+					}
+					asg := enclosingStmt(st.Fn.Decl.Body, r)
+					g := st.Fn.Graph()
+					l, okl := g.LocOf(asg)
+					ok = ok && okl && factMatches(g.FactsAt(l), func(ft Fact) bool { return ft.Val && nosp(exprStr(ft.Cond)) == "cl.cfg.disableIdempotency" })
+				}
+			}
+			c.Check(ok, rule, cons, st.Node.Pos(), m, "starts at 1; the configured value only without idempotence", "a new sink does not start with one in-flight request for an idempotent producer")
+		default:
+			c.Fail(rule, cons, st.Node.Pos(), m, "unexpected writer of the in-flight semaphore")
+		}
+	}
+	c.Floor(rule+"/stores", n, 2)
+	// kfake's window has the same size
+	if km := c.Load("pkg/kfake"); km != nil {
+		if fv := km.Field("kfake", "pidwindow", "entries"); fv != nil {
+			arr, ok := fv.Type().Underlying().(*types.Array)
+			c.Check(ok && arr.Len() == window, rule, "kfake.pidwindow.entries", fv.Pos(), km, "5-entry duplicate window", "kfake's duplicate window is not 5 entries")
+		}
+	}
 }
 
 func c02seq(c *Ctx, m *Module) {
@@ -146,13 +215,13 @@ func c02failers(c *Ctx, m *Module) {
 		return
 	}
 	table := map[string]string{
-		"kgo.Client.finishBatch":           "definitive",
-		"kgo.producer.purgeTopics":         "terminal",
-		"kgo.Client.failBufferedRecords":   "terminal",
-		"kgo.sink.produce":                 "guarded",
-		"kgo.sink.handleRetryBatches":      "guarded-unsure-only",
-		"kgo.recBuf.bumpRepeatedLoadErr":   "guarded",
-		"kgo.produceRequest.tryAddBatch":   "guarded",
+		"kgo.Client.finishBatch":         "definitive",
+		"kgo.producer.purgeTopics":       "terminal",
+		"kgo.Client.failBufferedRecords": "terminal",
+		"kgo.sink.produce":               "guarded",
+		"kgo.sink.handleRetryBatches":    "guarded-unsure-only",
+		"kgo.recBuf.bumpRepeatedLoadErr": "guarded",
+		"kgo.produceRequest.tryAddBatch": "guarded",
 	}
 	n := 0
 	for _, site := range CallSites(m.FuncsIn("kgo"), far.Obj) {
